@@ -515,6 +515,26 @@ def run_impl(hist, cap=1):
                             t.cancel()                    # r's timer has already fired in this iteration (or is not due)
                     loop.call_at(loop.time() + ev[2] / 4096, fire)
                     await vloop.sleep_ticks(ev[2])
+                elif k == "TD":
+                    # SAME loop turn: request r's 30 s timer fires and then, before r's task ran (it will close the
+                    # transport), one read delivers the HTTP response n: the dead future swallows it, nobody gets it
+                    t = tasks.get(ev[1])
+
+                    def send(n=ev[3]):
+                        h, b = _msg_bytes("H", n)
+                        assign("H", n, not tr.is_closing())
+                        tr.peer_send(ep.seal(h + b))
+
+                    def fire2(t=t, send=send):
+                        fw = getattr(t, "_fut_waiter", None) if t is not None else None
+                        due = [h for h in loop._ready if getattr(h._callback, "__name__", "") == "_handle_timeout"
+                               and not h._cancelled]
+                        if due and fw is not None and not fw.done():
+                            loop.call_soon(send)
+                        else:
+                            send()
+                    loop.call_at(loop.time() + ev[2] / 4096, fire2)
+                    await vloop.sleep_ticks(ev[2])
                 elif k == "A":
                     await vloop.sleep_ticks(ev[1])
                 elif k == "PC":
@@ -676,7 +696,7 @@ def oracle(hist, res, cap=None):
             elif t[0] == "o":
                 epoch += 1                      # reconnected: a new connection epoch
                 abandoned = was_abandoned = tainted = False
-            elif t[0] == "x" and i < len(hist) and ev[0] in ("A", "TC") and pending_written_before:
+            elif t[0] == "x" and i < len(hist) and ev[0] in ("A", "TC", "TD") and pending_written_before:
                 due = min(pending_written_before.values()) + T30
                 if int(t[2:]) != due and stp["now"] >= due:
                     bad.append(("timeout-at-wrong-tick",
@@ -701,7 +721,7 @@ def oracle(hist, res, cap=None):
         if i < len(hist) and abandoned and not was_abandoned:
             k = ev[0]
             legit = (k in ("PC", "PE", "LC") or cancel_inflight
-                     or (k in ("A", "TC") and any(stp["now"] >= wt + T30 for wt in pending_written_before.values()))
+                     or (k in ("A", "TC", "TD") and any(stp["now"] >= wt + T30 for wt in pending_written_before.values()))
                      or (k == "D" and (tainted or any(m[0] == "O" or (m[0] == "H" and intended.get(m[1]) is None)
                                                       for m in ev[1])))
                      or (k == "F" and (tainted or any(m[0] == "O" or (m[0] == "H" and intended.get(m[1]) is None)
@@ -786,6 +806,8 @@ def ev_tok(ev):
         return "C%d D:H%d" % (ev[1], ev[2])     # two model steps, merged again by parse_model_h
     if k == "TC":
         return "A%d C%d" % (ev[2], ev[1])       # two model steps (Advance to the timer, Cancel r), merged again
+    if k == "TD":
+        return "A%d D:H%d" % (ev[2], ev[3])     # two model steps (Advance to the timer, Data [H n]), merged again
     return k          # I F PC PE R LL
 
 
@@ -796,7 +818,7 @@ def model_line(cap, hist):
 def parse_model_h(ans, hist):
     """parse the driver's answer for model_line(cap, hist); a same-turn event (CD) is two model steps whose outputs
     are merged into one harness step"""
-    groups = [2 if e[0] in ("CD", "TC") else 1 for e in hist]
+    groups = [2 if e[0] in ("CD", "TC", "TD") else 1 for e in hist]
     steps, state = parse_model(ans, sum(groups))
     out, j = [], 0
     for e, g in zip(hist, groups):
@@ -874,6 +896,9 @@ def gen_exhaustive(drv, cap, depth, rich, max_issue, max_frag, start=None, closi
                 if st["infl"] and tc:
                     # the oldest in-flight request's 30 s timer fires and its caller is cancelled in the same loop turn
                     letters.append(["TC", st["infl"][0], st["infl_t"][0] + T30 - st["clock"]])
+                if st["infl"] and tc and (cap >= 2 or rich):
+                    # ... or the response to it is read in the same loop turn, after the timer fired
+                    letters.append(["TD", st["infl"][0], st["infl_t"][0] + T30 - st["clock"], 10 * i])
                 if rich:
                     letters.append(["D", [["E", 10 * i], ["H", 10 * i + 2]], 1])      # both in ONE encrypted frame
                     letters.append(["D", [["E", 10 * i], ["H", 10 * i + 2]], 2])      # frame boundary inside the response
@@ -970,6 +995,10 @@ def gen_timeout_cancel():
             dt = T30 - sum(e[1] for e in mid if e[0] == "A")
             for post in ([["I"], ["D", [["H", 60]]]], [["D", [["H", 60]]], ["I"]], [["R"], ["I"], ["D", [["H", 60]]]]):
                 out.append((1, h + [["TC", r, dt]] + post))
+                out.append((1, h + [["TD", r, dt, 40]] + post))
+    out.append((2, [["I"], ["A", 5], ["I"], ["TD", 0, T30 - 5, 40], ["D", [["H", 60]]], ["I"]]))
+    out.append((2, [["I"], ["I"], ["TD", 0, T30, 40], ["I"]]))
+    out.append((3, [["I"], ["A", 5], ["I"], ["A", 5], ["I"], ["TD", 0, T30 - 10, 40], ["D", [["H", 60]]], ["I"]]))
     out.append((2, [["I"], ["I"], ["TC", 0, T30], ["I"], ["D", [["H", 60]]]]))
     out.append((2, [["I"], ["I"], ["TC", 1, T30], ["I"], ["D", [["H", 60]]]]))
     out.append((2, [["I"], ["A", 50], ["I"], ["I"], ["TC", 0, T30 - 50], ["I"], ["D", [["H", 60]]]]))
@@ -1318,7 +1347,7 @@ def remove_events(hist, idxs):
     for j, e in enumerate(hist):
         if j in idxs:
             continue
-        if e[0] in ("C", "CD", "TC"):
+        if e[0] in ("C", "CD", "TC", "TD"):
             if e[1] in gone:
                 continue
             out.append([e[0], e[1] - sum(1 for g in gone if g < e[1])] + list(e[2:]))
@@ -1441,7 +1470,10 @@ def run(ctx):
                      sample=dict(stream=name, cap=cap, history=hist, outputs=res["outs"], outcomes=res["outcomes"])
                      if cov.evaluations % 4099 == 0 else None,
                      stream=name, cap=cap, length=len(hist), events_used="".join(sorted(k[0] for k in kinds)),
-                     closed_by_end=res["closed"], crash_in_data_received=res["crash"])
+                     closed_by_end=res["closed"], crash_in_data_received=res["crash"],
+                     framing="".join(sorted({str(e[2] if len(e) > 2 else 0) for e in hist if e[0] == "D"})) or "-",
+                     max_msgs_per_read=max([len(e[1]) for e in hist if e[0] == "D"] or [0]),
+                     same_turn="".join(sorted({e[0] for e in hist if e[0] in ("CD", "TC", "TD")})) or "-")
             for o in res["outcomes"]:
                 cov.hist["outcome_seen"][o] += 1
             if orc:
